@@ -5,10 +5,11 @@ import json, shutil, sys
 from pathlib import Path
 src, pid = Path(sys.argv[1]), sys.argv[2]
 results = json.loads(Path(sys.argv[3]).read_text()) if len(sys.argv) > 3 else {}
+prefix = sys.argv[4] if len(sys.argv) > 4 else ""   # e.g. "r2" -> seeded/C01-r2m1
 dst_root = Path("/verif/seeded")
 dst_root.mkdir(exist_ok=True)
 for m in sorted(p for p in (src / "out").glob("m[0-9]") if p.is_dir()):
-    d = dst_root / f"{pid}-{m.name}"
+    d = dst_root / f"{pid}-{prefix}{m.name}"
     d.mkdir(exist_ok=True)
     for f in ("patch.diff", "demo.py"):
         shutil.copy(m / f, d / f)
